@@ -14,11 +14,23 @@ Norm(s) == [query |-> s.query, mutation |-> s.mutation,
                           members |-> ToSet(s.types[n].members), values |-> ToSet(s.types[n].values)]]]
 R(s, f) == INSTANCE Response WITH Schema <- s, Fragments <- f
 Sel(name, cond) == IF cond THEN {} ELSE {name}
+\* response keys that select __typename under an alias (the harness names them tn1, tn2, ..)
+RECURSIVE TypenameAliases(_)
+TypenameAliases(sels) ==
+  UNION {CASE sels[k][1] = "field" -> (IF sels[k][3] = "__typename" /\ sels[k][2] # "__typename" THEN {sels[k][2]} ELSE {}) \cup TypenameAliases(sels[k][4])
+           [] sels[k][1] = "inline" -> TypenameAliases(sels[k][3])
+           [] OTHER -> {} : k \in 1..Len(sels)}
+AllTypenameAliases(r) == TypenameAliases(r.sels) \cup UNION {TypenameAliases(r.fragments[f].sels) : f \in DOMAIN r.fragments}
 Fails(r) ==
-  LET s == Norm(RawSchemas[r.schema]) IN
-  UNION { Sel("C33-crash", ~r.crash),
-          Sel("C33-shape", r.crash \/ R(s, r.fragments)!ResponseConforms([kind |-> r.kind, sels |-> r.sels], r.data)),
-          Sel("C33-not-reproduced-by-execution", r.executed => (r.reproduced /\ r.execErrors = 0)) }
+  LET s == Norm(RawSchemas[r.schema])
+      withOverlay == r.overlay[1] # "none"
+      P == IF withOverlay THEN "X02" ELSE "C33" IN
+  UNION { Sel(P \o "-crash", ~r.crash),
+          Sel(P \o "-shape", r.crash \/ R(s, r.fragments)!ResponseConforms([kind |-> r.kind, sels |-> r.sels], r.data)),
+          Sel(P \o "-not-reproduced-by-execution", r.executed => (r.reproduced /\ r.execErrors = 0)),
+          IF r.crash \/ ~withOverlay \/ R(s, r.fragments)!Covers(r.data, r.overlay) THEN {}
+          ELSE IF R(s, r.fragments)!CoversExcept(r.data, r.overlay, AllTypenameAliases(r)) THEN {"X02-aliased-typename-not-echoed"}
+          ELSE {"X02-overlay-not-echoed"} }
 Init == l = 1 /\ bad = {}
 Next == /\ l <= Len(Rec) /\ l' = l + 1
         /\ bad' = IF Fails(Rec[l]) = {} THEN bad ELSE bad \cup {<<l, Fails(Rec[l])>>}
